@@ -64,8 +64,12 @@ var verifC10Entries = []VerifC10Entry{
 	{Name: "MessageSet", MaxV: 0, Records: true},
 	{Name: "MessageBlock", MaxV: 0, Records: true},
 	{Name: "Message", MaxV: 0, Records: true},
-	{Name: "ConsumerGroupMemberMetadata", MaxV: 0},
-	{Name: "ConsumerGroupMemberAssignment", MaxV: 0},
+	// the blobs OTHER group members write; "version" is the Version field inside the blob
+	{Name: "ConsumerGroupMemberMetadata", MaxV: 3},
+	{Name: "ConsumerGroupMemberAssignment", MaxV: 3},
+	// the same blobs reached through the responses that carry them
+	{Name: "JoinGroupResponse.GetMembers", MaxV: 2},
+	{Name: "DescribeGroupsResponse.members", MaxV: 1},
 	{Name: "StickyAssignorUserDataV0", MaxV: 0},
 	{Name: "StickyAssignorUserDataV1", MaxV: 0},
 	{Name: "StickyUserData", MaxV: 0}, // deserializeTopicPartitionAssignment (balance_strategy.go)
@@ -168,6 +172,35 @@ func VerifC10Decode(entry string, version int16, buf []byte) (error, string) {
 		return err, ""
 	}
 	switch entry {
+	case "JoinGroupResponse.GetMembers":
+		r := &JoinGroupResponse{}
+		if err := versionedDecode(buf, r, version); err != nil {
+			return err, ""
+		}
+		_, err := r.GetMembers()
+		return err, ""
+	case "DescribeGroupsResponse.members":
+		r := &DescribeGroupsResponse{}
+		if err := versionedDecode(buf, r, version); err != nil {
+			return err, ""
+		}
+		for _, g := range r.Groups {
+			if g == nil {
+				continue
+			}
+			for _, m := range g.Members {
+				if m == nil {
+					continue
+				}
+				if _, err := m.GetMemberMetadata(); err != nil {
+					return err, ""
+				}
+				if _, err := m.GetMemberAssignment(); err != nil {
+					return err, ""
+				}
+			}
+		}
+		return nil, ""
 	case "responseHeader":
 		return versionedDecode(buf, &responseHeader{}, version), ""
 	case "RecordBatch":
